@@ -293,10 +293,11 @@ def c14(run):
 
 def classify_c07(m):
     """C07-KF1: alpha on stress, and the only differences are secondary stress marks that became primary"""
+    import re
     rule, before, after = m.get("rule", ""), m.get("word", ""), m.get("after", "")
     norm = lambda w: w.replace("'", "\u02c8").replace(",", "\u02cc").replace(":", "\u02d0")
     before = norm(before)
-    if "Astress" in rule and len(before) == len(after) and before != after and all(a == b or (b == "\u02cc" and a == "\u02c8") for a, b in zip(after, before)):
+    if re.search(r"[A-Z]stress", rule) and len(before) == len(after) and before != after and all(a == b or (b == "\u02cc" and a == "\u02c8") for a, b in zip(after, before)):
         return "C07-KF1"
     return None
 
@@ -313,7 +314,7 @@ def c08(run):
     run.assumptions += TRUSTED
     mc_job(run, "MC_Scan", "mc/MC_Scan.tla", "mc/MC_Scan%s.cfg" % ("_thorough" if run.tier == "thorough" else ""),
            "M: WordOK is an invariant of the reference machine's transform actions (WordInv)")
-    law_pipeline(run, "C08", ["any"], 10 if run.tier == "thorough" else 6)
+    law_pipeline(run, "C08", ["any", "prosonly"], 10 if run.tier == "thorough" else 6)
 
 
 def _rule_parts(rule):
@@ -394,15 +395,16 @@ def c09(run):
     run.assumptions += TRUSTED
     text_job(run, "C09")
     out = os.path.join(BUILD, "rec-C09.ndjson")
-    summary, _ = run_harness(["record", "C09", out, str(200000 if run.tier == "thorough" else 30000)], env=run.known_env())
+    rule_files = [gen_rules(run, "any"), gen_rules(run, "prosonly")]
+    summary, _ = run_harness(["record", "C09", out, str(200000 if run.tier == "thorough" else 30000)] + rule_files, env=run.known_env(), timeout=6000)
     run.add_summary("record_C09_words", summary, traces=False)
     tv_laws(run, "C09", out, summary, classify=lambda m: m.get("kf") or None)
-    for f in (out, out + ".meta"):
+    for f in (out, out + ".meta") + tuple(rule_files):
         if os.environ.get("VERIF_KEEP"): break
         try: os.remove(f)
         except OSError: pass
     run.cov["rule"] = ("segments: every base, base + one diacritic (quick: a seeded third of the bases), thorough: + two diacritics and all single-feature changes on a seeded part; "
-                       "words: random assemblies of such segments with length, stress, tone and boundaries; non-trivial = rendering needs at least one diacritic / the word is renderable")
+                       "words: random assemblies of such segments (and of segments without a spelling) with length, stress, tone and boundaries, plus the words that generated rules (full grammar and prosody-only) produce from random words; non-trivial = rendering needs at least one diacritic / the word is renderable")
 
 
 def c01(run):
